@@ -480,19 +480,35 @@ def rule_g(ctx, ix):
     ctx.ob(R, f.construct, 'the links between datasets are installed on the collection', True)
 
 
-def _loaded_shape(e, owner, depth=0):
+def _loaded_shape(e, owner, depth=0, scope=None):
     """Layout of a value a loader builds: O = an object restored by context.object, V = a plain value, [..] = a fixed sequence,
-    ['*', s] = any number of s, {'k': s, 'v': s} = a mapping."""
+    ['*', s] = any number of s, {'k': s, 'v': s} = a mapping, ['|', a, b] = one of two layouts, U = unknown element."""
     if depth > 8 or e is None:
         return 'V'
+    if isinstance(e, ast.Name) and scope is not None:
+        defs = [st for st in ast.walk(scope) if isinstance(st, ast.Assign) and len(st.targets) == 1 and isinstance(st.targets[0], ast.Name)
+                and st.targets[0].id == e.id]
+        if len(defs) == 1:
+            return _loaded_shape(defs[0].value, owner, depth + 1, scope)
+        return 'V'
+    if isinstance(e, ast.IfExp):
+        t = e.test
+        # `x if isinstance(x, tuple) else (x,)`: in the first arm x is a sequence (of whatever was stored)
+        if isinstance(t, ast.Call) and call_name(t) == 'isinstance' and len(t.args) == 2 and unparse(t.args[0]) == unparse(e.body) and \
+                any(n_ in unparse(t.args[1]) for n_ in ('tuple', 'list')):
+            a = ['*', 'U']
+        else:
+            a = _loaded_shape(e.body, owner, depth + 1, scope)
+        b = _loaded_shape(e.orelse, owner, depth + 1, scope)
+        return a if a == b else ['|', a, b]
     if isinstance(e, ast.Call):
         nm = call_name(e)
         if isinstance(e.func, ast.Attribute) and nm == 'object' and unparse(e.func.value) == 'context':
             return 'O'
         if isinstance(e.func, ast.Name) and nm in ('list', 'tuple', 'sorted', 'set', 'frozenset') and len(e.args) == 1:
-            return _loaded_shape(e.args[0], owner, depth + 1)
+            return _loaded_shape(e.args[0], owner, depth + 1, scope)
         if isinstance(e.func, ast.Name) and nm in ('dict', 'OrderedDict') and len(e.args) == 1:
-            inner = _loaded_shape(e.args[0], owner, depth + 1)
+            inner = _loaded_shape(e.args[0], owner, depth + 1, scope)
             if isinstance(inner, list) and len(inner) == 2 and inner[0] == '*' and isinstance(inner[1], list) and len(inner[1]) == 2:
                 return {'k': inner[1][0], 'v': inner[1][1]}
             return 'V'
@@ -503,21 +519,23 @@ def _loaded_shape(e, owner, depth=0):
                 if isinstance(d, ast.FunctionDef) and d.name == e.func.id and d is not owner.node:
                     rets = [r for r in ast.walk(d) if isinstance(r, ast.Return) and r.value is not None]
                     if len(rets) == 1:
-                        return _loaded_shape(rets[0].value, owner, depth + 1)
+                        return _loaded_shape(rets[0].value, owner, depth + 1, d)
         return 'V'
     if isinstance(e, (ast.List, ast.Tuple)):
-        return [_loaded_shape(x, owner, depth + 1) for x in e.elts]
+        return [_loaded_shape(x, owner, depth + 1, scope) for x in e.elts]
     if isinstance(e, (ast.ListComp, ast.GeneratorExp, ast.SetComp)):
-        return ['*', _loaded_shape(e.elt, owner, depth + 1)]
+        return ['*', _loaded_shape(e.elt, owner, depth + 1, scope)]
     if isinstance(e, ast.DictComp):
-        return {'k': _loaded_shape(e.key, owner, depth + 1), 'v': _loaded_shape(e.value, owner, depth + 1)}
+        return {'k': _loaded_shape(e.key, owner, depth + 1, scope), 'v': _loaded_shape(e.value, owner, depth + 1, scope)}
     return 'V'
 
 
 def _instance_of(a, b):
     """Is layout ``a`` a special case of layout ``b``?  (a fixed sequence of s is a case of "any number of s")"""
-    if a == b:
+    if a == b or a == 'U':
         return True
+    if isinstance(a, list) and len(a) == 3 and a[0] == '|':
+        return _instance_of(a[1], b) and _instance_of(a[2], b)
     if isinstance(b, list) and len(b) == 2 and b[0] == '*':
         if isinstance(a, list) and not (len(a) == 2 and a[0] == '*'):
             return all(_instance_of(x, b[1]) for x in a)
